@@ -36,6 +36,14 @@ def cases(tier, seed):
         cs.append({'scen': 'c18_bilinear', 's': {'d': d, 'kx': 'ttm', 'B': B}})
         cs.append({'scen': 'c18_bilinear', 's': {'d': d, 'kA': 'tt', 'B': B}})
         cs.append({'scen': 'c18_bilinear', 's': {'d': d, 'ky': 'ttm', 'B': B}})
+    # one object in several operand positions
+    for d in (1, 2):
+        for k in ('tt', 'ttm'):
+            cs.append({'scen': 'c18_dot', 's': {'k1': k, 'k2': k, 'd1': d, 'd2': d, 'B': B, 'alias': True}})
+            cs.append({'scen': 'c18_dot', 's': {'k1': k, 'k2': k, 'd1': d, 'd2': d, 'B': B, 'alias': True, 'axis': list(range(d))}})
+            cs.append({'scen': 'c18_matmul', 's': {'k1': k, 'k2': k, 'd1': d, 'd2': d, 'B': B, 'alias': True}})
+        cs.append({'scen': 'c18_bilinear', 's': {'d': d, 'B': B, 'alias': 'xy'}})
+        cs.append({'scen': 'c18_bilinear', 's': {'d': d, 'B': B, 'alias': 'all', 'kx': 'ttm', 'ky': 'ttm'}})
     cs.append({'scen': 'c18_bilinear', 's': {'d': 2, 'dx': 1, 'B': B}})
     cs.append({'scen': 'c18_bilinear', 's': {'d': 2, 'dy': 1, 'B': B}})
     cs.append({'scen': 'c18_bilinear', 's': {'d': 2, 'dx': 1, 'dy': 3, 'B': B}})      # (orders differ but the flat size lists can coincide)
@@ -91,6 +99,9 @@ def cases(tier, seed):
     for d in (1, 2, 3):
         for form in ('two', 'neg_all', 'one'):
             cs.append({'scen': 'c18_unary_args', 's': {'what': 'reshape_negative', 'd': d, 'B': 3, 'form': form}})
+        if d <= 2:
+            for form in ('pairs_neg', 'two', 'rows_neg', 'one', 'mixed'):
+                cs.append({'scen': 'c18_unary_args', 's': {'what': 'reshape_negative', 'd': d, 'B': 2 if d == 2 else 3, 'form': form, 'kind': 'ttm'}})
         for k in (-1, 0, 1, 2):
             if d + k >= 1:
                 cs.append({'scen': 'c18_unary_args', 's': {'what': 'apply_mask_cols', 'd': d, 'B': 3, 'k': k, 'class_check': False}})
@@ -141,7 +152,7 @@ def sig(case, label):
     s = case['s']
     sc = case['scen']
     parts = [sc]
-    for k in ('what', 'op', 'k1', 'k2', 'kind', 'arg', 'kx', 'kA', 'ky'):
+    for k in ('what', 'op', 'k1', 'k2', 'kind', 'arg', 'kx', 'kA', 'ky', 'alias', 'form'):
         if k in s:
             parts.append('%s=%s' % (k, s[k]))
     if sc in ('c18_binop', 'c18_matmul', 'c18_dot'):
